@@ -316,6 +316,14 @@ PLANS = {
                 rule="repair (both entry points, seeded/unseeded heuristic) from flip walks, inserts and removals "
                      "with repair disabled; distinct non-trivial = distinct successful Repair events",
                 nontrivial=_key_event({"Repair"})),
+    "C05": dict(level="fault_enumeration", families=[("faults", 14, 16)],
+                rule="for valid library-built triangulations (D=2..5, the three guarantees, 4-7 vertices) every single fault "
+                     "of 17 classes at every site (cell x slot x slot / vertex) up to a cap per triangulation (seeded sample "
+                     "above it), plus random PAIRS of faults on instances with <= 4 cells; faults are injected into a copy of "
+                     "the Tds through cfg(delaunay_verif) raw accessors, the library's validators are asked, and TLC "
+                     "recomputes Levels 1-3 from the raw projected slots. distinct non-trivial = distinct (triangulation, "
+                     "applied fault list) with at least one fault applied",
+                nontrivial=lambda e: ((e.get("tag"), json.dumps(e["args"].get("faults"))) if e["ev"] == "Faulted" and not e["args"].get("clean") else None)),
     "C09": dict(level="model_checking", families=[("insert", 8, 16)],
                 stages=[lambda c, v: stage_mc("MC_Caches.tla", ("MC_Caches_fixed.cfg" if c.tier == "thorough" else "MC_Caches_fixed_quick.cfg") if edit_invalidates() else "MC_Caches_pinned.cfg",
                                               expect_violation=None if edit_invalidates() else ["IndexComplete", "NoDuplicateAccepted"])(c, v),
